@@ -268,7 +268,34 @@ def _must_assign(prog, ci, fi, recv, depth=0, stack=()):
                 elif (dotted(c.func) or "") == "setattr" and len(c.args) == 3 and isinstance(c.args[0], ast.Name) and c.args[0].id == recv and _const_str(c.args[1]):
                     got.add(_const_str(c.args[1]))
         common = got if common is None else (common & got)
-    return common if common is not None else set()
+    # `for name in ("a", "b"): setattr(recv, name, ...)` as a top-level statement (the tuple a literal or a module-level
+    # constant): a loop over a non-empty constant runs for each of its names on every path
+    always = set()
+    for n in fi.node.body:
+        if isinstance(n, ast.For) and isinstance(n.target, ast.Name) and not n.orelse:
+            names = _const_strs(fi.module, n.iter)
+            if not names:
+                continue
+            for st in n.body:
+                if isinstance(st, ast.Expr) and isinstance(st.value, ast.Call) and (dotted(st.value.func) or "") == "setattr" and len(st.value.args) == 3:
+                    a0, a1 = st.value.args[0], st.value.args[1]
+                    if isinstance(a0, ast.Name) and a0.id == recv and isinstance(a1, ast.Name) and a1.id == n.target.id:
+                        always |= set(names)
+                if any(isinstance(x, (ast.Break, ast.Continue, ast.Return, ast.Raise)) for x in ast.walk(st)):
+                    break
+    return (common if common is not None else set()) | always
+
+
+def _const_strs(module, e):
+    """The strings of a literal tuple / list, or of a module-level constant bound once to one; else None."""
+    if isinstance(e, ast.Name):
+        vals = [st.value for st in module.tree.body if isinstance(st, ast.Assign) and len(st.targets) == 1 and isinstance(st.targets[0], ast.Name) and st.targets[0].id == e.id]
+        if len(vals) != 1:
+            return None
+        e = vals[0]
+    if isinstance(e, (ast.Tuple, ast.List)) and e.elts and all(isinstance(x, ast.Constant) and isinstance(x.value, str) for x in e.elts):
+        return [x.value for x in e.elts]
+    return None
 
 
 def rule_D2(ctx):
